@@ -1848,6 +1848,10 @@ class Surface(SplineGeometry):
             if arg < degree + 1:
                 raise GeomdlException("Number of control points should be at least degree + 1")
 
+        if len(args) == 2 and len(ctrlpts) != int(args[0]) * int(args[1]):
+            raise GeomdlException("Number of control points should be equal to size_u * size_v",
+                                  data=dict(num_ctrlpts=len(ctrlpts), size_u=args[0], size_v=args[1]))
+
         if len(ctrlpts[0]) < 2:
             raise GeomdlException("A surface should be at least 2-dimensional")
 
@@ -2941,6 +2945,10 @@ class Volume(SplineGeometry):
                 raise GeomdlException("Set the degree first")
             if arg < degree + 1:
                 raise GeomdlException("Number of control points should be at least degree + 1")
+
+        if len(args) == 3 and len(ctrlpts) != int(args[0]) * int(args[1]) * int(args[2]):
+            raise GeomdlException("Number of control points should be equal to size_u * size_v * size_w",
+                                  data=dict(num_ctrlpts=len(ctrlpts), size_u=args[0], size_v=args[1], size_w=args[2]))
 
         if len(ctrlpts[0]) < 3:
             raise GeomdlException("A volume should be at least 3-dimensional")
